@@ -303,10 +303,14 @@ impl<'r> G<'r> {
                     self.expr()
                 };
                 // by-value arguments only: literals or parenthesised expressions
-                let arg = match a {
+                let mut arg = match a {
                     Expr::Int(n) => Expr::Int(n),
                     other => Expr::Paren(Box::new(other)),
                 };
+                if self.f.recursion && self.rng.chance(1, 8) {
+                    // deep recursion (the recursive procedures count their parameter down)
+                    arg = Expr::Int(self.rng.range(15, 22) as i32);
+                }
                 self.st(StmtKind::CallSub {
                     name,
                     args: vec![arg],
@@ -847,6 +851,12 @@ impl<'r> G<'r> {
             let s = self.st(StmtKind::OnErrorGoto("H1".into()));
             body.insert(0, s);
         }
+        if self.f.on_error_goto_0 && self.rng.chance(1, 4) && !body.is_empty() {
+            // the handler is switched off in the middle of the subprogram
+            let at = 1 + self.rng.below(body.len());
+            let s = self.st(StmtKind::OnErrorGoto0);
+            body.insert(at, s);
+        }
         if is_function {
             let e = self.pure_expr(1);
             let s = self.st(StmtKind::Assign {
@@ -1020,7 +1030,15 @@ pub fn gen_control_flow(rng: &mut Rng, avoid: &Avoid) -> Scenario {
     // handler arming: ON ERROR GOTO H1 somewhere early; optionally GOTO 0 later and re-arm
     let mut need_h2 = false;
     let mut need_h1 = g.f.handler_in_sub && g.f.handler;
-    if g.f.handler {
+    if g.f.handler && g.f.on_error_resume_next && g.rng.chance(1, 2) && list.len() > 2 {
+        // errors are swallowed first; the handler is armed later
+        need_h1 = true;
+        let s = g.st(StmtKind::OnErrorResumeNext);
+        list.insert(0, s);
+        let at = 2 + g.rng.below(list.len() - 1);
+        let s = g.st(StmtKind::OnErrorGoto("H1".into()));
+        list.insert(at.min(list.len()), s);
+    } else if g.f.handler {
         need_h1 = true;
         let at = g.rng.below(list.len().min(3) + 1);
         let s = g.st(StmtKind::OnErrorGoto("H1".into()));
